@@ -168,6 +168,7 @@ def tlc(
             "-XX:+UseSerialGC" if str(workers) == "1" else "-XX:+UseParallelGC",
             "-Xmx8g",
             "-Xss512m",
+            f"-Djava.io.tmpdir={sc}",
             "-cp",
             JAVA_CP,
             "tlc2.TLC",
